@@ -79,7 +79,10 @@ def endings_for(tree: list[dict[str, Any]]) -> list[dict[str, Any]]:
             for sig in ("SIGINT", "SIGTERM"):
                 if phase != "ctor":
                     out.append({"kind": "signal_startup", "path": n["path"], "phase": phase, "sig": sig, "cli": phase == "start" and n["path"] == ""})
-    out.append({"kind": "timeout", "cli": False})
+    # start-up stalls in prepare() or start() of any one component until the timeout strikes
+    for n in tree:
+        for phase in ("prepare", "start"):
+            out.append({"kind": "timeout", "path": n["path"], "phase": phase, "cli": False})
     for sig in ("SIGINT", "SIGTERM"):
         out.append({"kind": "signal_after", "sig": sig, "cli": False})
         out.append({"kind": "signal_during_run", "sig": sig, "cli": True})
@@ -124,6 +127,7 @@ def gen_case(idx: int, seed: int, tier: str) -> Any:
             n["has_prepare"] = True
     base["tree"] = tree
     base["sched_seed"] = rng.randrange(1 << 30)
+    base["td_salt"] = rng.randrange(4)
     return base
 
 
@@ -165,7 +169,22 @@ class Scenario:
             for _ in range(n):
                 counter[0] += 1
                 tid = counter[0]
-                add_teardown_callback(lambda tid=tid: sc.log("td-run", tid))
+                form = (tid + case.get("td_salt", 0)) % 4
+                if form == 0:
+                    # an asynchronous callback that really waits for something (closing a connection): when the application is
+                    # being cancelled it is interrupted at that point - and the remaining callbacks must run all the same
+                    async def acb(tid: int = tid) -> None:
+                        sc.log("td-run", tid, form="async-waiting")
+                        await anyio.sleep(0.01)
+
+                    add_teardown_callback(acb)
+                elif form == 1:
+                    async def acb0(tid: int = tid) -> None:
+                        sc.log("td-run", tid, form="async")
+
+                    add_teardown_callback(acb0)
+                else:
+                    add_teardown_callback(lambda tid=tid: sc.log("td-run", tid, form="sync"))
                 sc.log("td-reg", tid, by=path, phase=phase)
 
         async def phase_body(path: str, phase: str) -> None:
@@ -191,7 +210,7 @@ class Scenario:
                 sc.raise_signal(ending["sig"])
                 await anyio.sleep(30)  # start-up would go on; the signal must interrupt it
                 sc.log("startup-continued-after-signal", path)
-            if ending["kind"] == "timeout" and path == "" and phase == "start":
+            if ending["kind"] == "timeout" and path == ending.get("path", "") and phase == ending.get("phase", "start"):
                 await anyio.sleep(1000)
             if path == "" and phase == "start" and ending["kind"] in ("signal_after", "service_crash_after"):
                 async def later() -> None:
